@@ -11,5 +11,5 @@ import (
 func TestMain(m *testing.M) { kit.MainWith(m, scratch.Cleanup) }
 
 func TestValue(t *testing.T) {
-	gomspec.PkgCheck(t, "value/packages", false, "C07", kit.Pick(5, 100))
+	gomspec.PkgCheck(t, "value/packages", false, "C07", kit.Pick(8, 100))
 }
